@@ -223,6 +223,7 @@ const (
 	PubKeyTy
 	PubKeyHashTy
 	ScriptHashTy
+	ScriptHash32Ty
 	MultiSigTy
 	NullDataTy
 )
@@ -295,6 +296,12 @@ var mutating3 = map[string]bool{
 	"Hash.Write": true,
 	"MsgMerkleBlock.AddTxHash": true,
 	"Int.Add": true, "Int.Mod": true,
+}
+
+// constructors of imported packages: their pointer result is a fresh object nobody else holds
+var freshFuncs3 = map[string]bool{
+	"github.com/gcash/bchd/wire.NewMsgTx": true, "github.com/gcash/bchd/wire.NewOutPoint": true,
+	"github.com/gcash/bchd/wire.NewMsgBlock": true,
 }
 
 // abstract functions / methods that change the object behind one of their pointer arguments: the new
